@@ -54,7 +54,7 @@ where
     | a :: as => WFx a ∧ WFxs as
   WFidx : List PExp → Prop
     | [] => True
-    | .var _ :: es => WFidx es
+    | .var i :: es => (i.toList.contains '_' = true → isKeyword i = false) ∧ WFidx es   -- in braces: read as an expression
     | .num t :: es => numIndexBare t = false ∧ WFidx es     -- written in braces (7352fcb)
     | .str s :: es => strIndexBare s = false ∧ WFidx es
     | e :: es => WFx e ∧ WFidx es
@@ -223,8 +223,13 @@ theorem fmtIdx_tk : (idx : List PExp) → WFx.WFidx idx → Idx idx (fmtToksIdx 
   | [], _ => by simp only [fmtToksIdx]; exact Idx.nil
   | .var i :: es, h => by
     simp only [WFx.WFidx] at h
-    have := fmtIdx_tk es h
-    simp only [fmtToksIdx]; exact Idx.var (i := i) this
+    have hr := fmtIdx_tk es h.2
+    simp only [fmtToksIdx]
+    split
+    · rename_i hc
+      have := Idx.brace (Tk.atom (Atom.var i (h.1 hc))) hr
+      simpa using this
+    · exact Idx.var (i := i) hr
   | .int v :: es, h => by
     simp only [WFx.WFidx, WFx] at h
     have hr := fmtIdx_tk es h.2
